@@ -61,7 +61,7 @@ pub fn check_gen(g: u8, wtm: bool, ksq: u8, max_own: u32, max_total: u32) {
     let p = pos::any_valid();
     kani::assume(p.white_to_move == wtm);
     let us = p.us();
-    kani::assume(p.pcs[us][K] == 1u64 << ksq);
+    if ksq < 64 { kani::assume(p.pcs[us][K] == 1u64 << ksq); } // 64: king square symbolic (only feasible on sparse boards)
     let own_loop = match g {
         G_PAWN_CAPS | G_PAWN_QUIETS => p.pcs[us][P],
         G_KNIGHT_CAPS | G_KNIGHT_QUIETS => p.pcs[us][N],
